@@ -12,7 +12,8 @@ RULE = ("pairs of generated templates A, B (all construct kinds incl. blocks, pa
         "after a construct must print the same state; 4 renders per case on the real crate, each mirrored by the model; "
         "non-trivial = A renders non-empty output; distinct by (A, B, data)")
 DEFINITE_FLOOR = 0.5
-ASSUMPTIONS = ["indentation: constructs are compared on the same line position (the separator '|' keeps both sides' line context equal)"]
+ASSUMPTIONS = ["a compact comment whose text begins with '--' after optional whitespace ({{! --x}}) is excluded from the random stream (known finding F20) and runs as a listed witness",
+               "indentation: constructs are compared on the same line position (the separator '|' keeps both sides' line context equal)"]
 
 
 def gen_case(rng: Rng, i):
@@ -53,6 +54,12 @@ def generate(rng: Rng, n, tier="quick"):
         c, m = gen_case(rng.fork(i), i)
         c["id"] = "%s-%06d" % (ID, i)
         out.append((c, m))
+    # listed witness of F20: a compact comment whose text begins with `--` opens a block comment when a later `--}}` exists
+    A = "x{{! ---}}y"
+    c = {"kind": "session", "regs": [{"escape": "none"}], "ops": [
+        {"op": "render", "reg": 0, "api": "render_template", "src": "|" + A + "|" + A + "|", "data": enc({})},
+        {"op": "render", "reg": 0, "api": "render_template", "src": "|" + A + "|", "data": enc({})}], "id": "C08-F20"}
+    out.append((c, {"mode": "repeat2", "A": A}))
     return out
 
 
